@@ -38,6 +38,13 @@ CLAIMED = {
              "the synapse's interpolation between grid points, overbound value / limit value (None) beyond the delay. dt in {1.0,(0.5),1.3}, delay in "
              "{0,(dt),2dt,2.5dt}, interp modes, tolerances {0,1e-3}, three overbound settings, in-place and out-of-place.",
         ref="6/C04"),
+    "C05": dict(
+        text="Forward map of LinearDense/LinearDirect/LinearLateral and Conv2D with symbolic inputs (spike indicators + real currents), weights and biases "
+             "against the index-level definition (padded cross-correlation with stride/dilation; output-size formula), two steps with the parameters "
+             "re-assigned in between; conv geometries: all non-empty combinations of H=W in 3..5 (1..5 and rectangular thorough), kernel 1..3, stride 1-2, "
+             "padding 0-1, dilation 1-2, C,F in {1,2}. Lateral: zero diagonal of weight and delay after tensor/Parameter/expression assignment and "
+             "after updater application. Helpers: like_input(like_synaptic(x)) == x on read positions; pre/post receptive views place elements as documented.",
+        ref="6/C05"),
 }
 
 REASONS = {}
